@@ -135,3 +135,15 @@ async fn streaming_process(
 
     Ok(())
 }
+
+/// Verification hook: the journal process without its own thread, so that an in-process
+/// harness can decide when it runs.
+#[cfg(feature = "verif")]
+pub async fn verif_streaming_process(
+    writer: JournalWriter,
+    receiver: EventStreamReceiver,
+    journal_path: PathBuf,
+    flush_period: Duration,
+) -> anyhow::Result<()> {
+    streaming_process(writer, receiver, &journal_path, flush_period).await
+}
